@@ -336,6 +336,8 @@ func (e *Exec) freshShape(old Value, hint string) Value {
 			n.F = append(n.F, e.freshShape(fv, hint))
 		}
 		return n
+	case *OpaqueArrV:
+		return e.newOpaqueArr(o.Elem, hint, false)
 	}
 	return old
 }
